@@ -130,12 +130,20 @@ inductive Cb | start | stop | eval | evt (h : Nat)
 def Cb.name : Cb → String
   | .start => "on_start" | .stop => "on_stop" | .eval => "on_eval" | .evt h => s!"on_evt#{h}"
 
+/-- what a `close(2)` call of the library closes -/
+inductive CloseTgt
+  | fd (k : Nat)       -- a descriptor the user registered
+  | dup (k : Nat)      -- the duplicate made for a registration that was then refused
+  | pipeR              -- read end of a module's message pipe
+  | pipeW              -- write end of a module's message pipe
+  deriving DecidableEq, Repr, Inhabited
+
 /-- observable outputs (the canonical lines of the correspondence) -/
 inductive Out
   | ret (code : Int)
   | invoke (cb : Cb) (m : ModId) (evts : List Evt)
   | free (payload : Nat)
-  | close (what : String)
+  | close (what : CloseTgt)
   | note (s : String)
   deriving DecidableEq, Repr, Inhabited
 
